@@ -1,8 +1,10 @@
 import KoordVerif.Model.C14
+import KoordVerif.Model.C14Entry
 import KoordVerif.Generated.C14
 /-
-Tie lemmas: the constants the model and the property statement use are the constants of
-/repo's current source (regenerated on every run by harness/extract).
+Tie lemmas: the constants, formulas, guards and registrations the model and the property statement use are those of
+/repo's current source (regenerated on every run by harness/extract).  Conditions are rendered with the local
+identifiers of the function replaced by `_`.
 -/
 namespace KoordVerif.C14
 open KoordVerif.Generated
@@ -13,5 +15,69 @@ theorem tie_consts :
     stdConsts = { shareUnit := C14.CPUShareUnitValue, sharesMin := C14.CPUSharesMinValue,
                   sharesMax := C14.CPUSharesMaxValue, cfsPeriod := C14.CFSBasePeriodValue,
                   quotaMin := C14.CFSQuotaMinValue } := by decide
+
+/-- cgroup v2: `ConvertCPUSharesToWeight` is the formula of `sharesToWeight`, clamped to the weight range. -/
+theorem tie_weight :
+    C14.weightFormula = "1 + ((_ - 2) * 9999) / 262142" ∧
+    weightMin = C14.CPUWeightMinValue ∧ weightMax = C14.CPUWeightMaxValue ∧
+    (262142 : Int) = C14.CPUSharesMaxValue - C14.CPUSharesMinValue ∧
+    (9999 : Int) = C14.CPUWeightMaxValue - C14.CPUWeightMinValue := by decide
+
+/-- every assignment of `ExtendedResources` on the annotation paths sits behind the nil-AND-nil-map guard
+    (model: `podFromNri`, `podFromProxy`, `ctrFromNri`, `ctrFromProxy` match on `some (some m)` only). -/
+theorem tie_entry_guards_annotation :
+    C14.podFromNriGuards = ["_ != nil && _.Containers != nil"] ∧
+    C14.podFromProxyGuards = ["_ != nil && _.Containers != nil"] ∧
+    C14.ctrFromNriGuards = ["_ != nil && _.Containers != nil ; _"] ∧
+    C14.ctrFromProxyGuards = ["_ != nil && _.Containers != nil ; _"] := by decide
+
+/-- reconciler paths: spec first, annotation only in the else branch and behind the same guard
+    (model: `podFromReconciler`, `ctrFromReconciler`). -/
+theorem tie_entry_guards_reconciler :
+    C14.podFromReconcilerGuards = ["_ != nil", "else(_ != nil) ; _ != nil && _.Containers != nil"] ∧
+    C14.ctrFromReconcilerGuards = ["_ != nil", "else(_ != nil) ; _ != nil && _.Containers != nil ; _"] := by decide
+
+/-- the setters leave early, in this order: nil context, not BE, no spec (model: `podHook`, `ctrHook`); the quota
+    setters then on "CFS quota disabled" (model: `podQuota`, `ctrQuota`). -/
+theorem tie_setter_guards :
+    C14.guardsSetPodCPUShares = ["_ == nil", "!isPodQoSBEByAttr(_.Request.Labels, _.Request.Annotations)", "_ == nil"] ∧
+    C14.guardsSetPodMemoryLimit = C14.guardsSetPodCPUShares ∧
+    C14.guardsSetPodCFSQuota = C14.guardsSetPodCPUShares ++ ["!_"] ∧
+    C14.guardsSetContainerCPUShares = ["_ == nil", "!isPodQoSBEByAttr(_.Request.PodLabels, _.Request.PodAnnotations)", "_ == nil"] ∧
+    C14.guardsSetContainerMemoryLimit = C14.guardsSetContainerCPUShares ∧
+    C14.guardsSetContainerCFSQuota = C14.guardsSetContainerCPUShares ++ ["!_"] := by decide
+
+/-- the reconciler drives exactly these six setters, one per level and file, for QoS BE (the entry harness mirrors
+    this table: one request per file). -/
+theorem tie_reconcilers :
+    C14.reconcilers =
+      ["PodLevel CPUShares SetPodCPUShares PodQOSFilter podQOSConditions",
+       "PodLevel CPUCFSQuota SetPodCFSQuota PodQOSFilter podQOSConditions",
+       "PodLevel MemoryLimit SetPodMemoryLimit PodQOSFilter podQOSConditions",
+       "ContainerLevel CPUShares SetContainerCPUShares PodQOSFilter podQOSConditions",
+       "ContainerLevel CPUCFSQuota SetContainerCFSQuota PodQOSFilter podQOSConditions",
+       "ContainerLevel MemoryLimit SetContainerMemoryLimit PodQOSFilter podQOSConditions"] ∧
+    C14.podQOSConditions = "string(apiext.QoSBE)" := by decide
+
+/-- node SLO glue: the strategy's own `enable` VALUE and policy are used unless the strategy or its policy is unset
+    (then the default strategy); CFS quota is given up only for `enable && policy == cfsQuota`
+    (model: `RuleEv.slo`, computed by the harness as `!(enable && cfsQuota)`). -/
+theorem tie_node_slo_glue :
+    C14.cpuSuppressPolicy =
+      ["if _ == nil || _.ResourceUsedThresholdWithBE == nil || _.ResourceUsedThresholdWithBE.CPUSuppressPolicy == \"\"",
+       "  ret *sloconfig.DefaultResourceThresholdStrategy().Enable",
+       "  ret sloconfig.DefaultResourceThresholdStrategy().CPUSuppressPolicy",
+       "ret *_.ResourceUsedThresholdWithBE.Enable",
+       "ret _.ResourceUsedThresholdWithBE.CPUSuppressPolicy"] ∧
+    C14.sloDisablesCFSQuota = "_ && _ == slov1alpha1.CPUCfsQuotaPolicy => false" ∧
+    C14.ratioDiffEpsilon = "0.01" := by decide
+
+/-- the executor's updaters for the three files: shares through the weight conversion, quota and memory through the
+    `-1 → max` conversion (model: `writeShares`, `writeLimit`). -/
+theorem tie_updaters :
+    C14.updaters =
+      ["CPUCFSQuotaName <- NewMergeableCgroupUpdaterWithConditionFunc(CgroupUpdateWithUnlimitedFunc, MergeConditionIfCFSQuotaIsLarger)",
+       "CPUSharesName <- NewCgroupUpdaterWithUpdateFunc(CgroupUpdateCPUSharesFunc)",
+       "MemoryLimitName <- NewCgroupUpdaterWithUpdateFunc(CgroupUpdateWithUnlimitedFunc)"] := by rfl
 
 end KoordVerif.C14
